@@ -105,3 +105,265 @@ def check_C02(ctx):
     r = validate_star(ctx, "Trace_Code", "Trace_Code.cfg", trace, parts=10 if ctx.thorough else 8, what="encode round")
     ctx.distinct = r["events"]
     sample_events(ctx, r["lines"])
+
+
+# ======================================================================
+# Object-protocol machinery shared by C05 C06 C07 C09 C11 C12 C17
+
+import graph as graphmod
+
+
+def codec_graph(ctx, role, inst, variant=""):
+    """Model-checks MC_Codec for (role, instance) and turns the emitted edges into graph.json."""
+    cfg = "MC_Codec_%s_%s%s.cfg" % (role, inst, variant)
+    res = tlc_run("MC_Codec", cfg, workers=4, timeout=1800, tag="MC_Codec_%s_%s%s_%s" % (role, inst, variant, ctx.prop))
+    log("[tlc] MC_Codec/%s: %d generated, %d distinct, %.1fs" % (cfg, res["generated"], res["distinct"], res["wall"]))
+    if not res["ok"]:
+        raise ToolError("MC_Codec %s violated %s on its own:\n%s" % (cfg, res["violated"], res["out"][-3000:]))
+    ctx.add_model("MC_Codec/" + cfg, res)
+    kind0 = "default" if inst == "rate" else "rs"
+    scale = 64 if "x64" in variant else 1
+    g = graphmod.build(res["out"], role, kind0, [2, 1, 64 * scale])
+    path = ctx.path("graph_%s_%s%s.json" % (role, inst, variant))
+    json.dump(g, open(path, "w"))
+    return path, len(g["nodes"]), len(g["edges"])
+
+
+def replay(ctx, gpath, mode, engines=None, acts=None, walks=0, length=40, trace=None, alloc=False, threads=12):
+    args = ["replay", "--graph", gpath, "--outdir", ctx.dir, "--seed", ctx.seed, "--mode", mode,
+            "--walks", walks, "--len", length, "--threads", threads]
+    if engines:
+        args += ["--engines", ",".join(engines)]
+    if acts:
+        args += ["--acts", ",".join(acts)]
+    if trace:
+        args += ["--trace", trace]
+    if alloc:
+        args += ["--alloc", "1"]
+    rc, info, out = harness(args)
+    if info is None:
+        raise ToolError("replay produced no report:\n" + out[-2000:])
+    log("[replay] %s mode=%s engines=%s: %d scripts, %d steps, %d/%d edges, %d violations" % (
+        os.path.basename(gpath), mode, ",".join(engines or ["all"]), info["scripts"], info["steps"],
+        info["edges_covered"], info["edges"], len(info["violations"])))
+    ctx.traces += info["scripts"] - len(info["violations"])
+    ctx.evaluations += info["steps"]
+    ctx.extra.setdefault("replay", []).append({"graph": os.path.basename(gpath), "mode": mode, "scripts": info["scripts"],
+                                               "steps": info["steps"], "edges": info["edges"],
+                                               "edges_covered": info["edges_covered"], "classes": info.get("classes", {})})
+    for v in info["violations"]:
+        ev = classify(v["what"])
+        ctx.violation(v["what"], v["replay"], ev)
+    return info
+
+
+def classify(what):
+    """Fields of a replay mismatch that known_findings.json entries can match on."""
+    ev = {"source": "replay"}
+    m = re.search(r'"err":"PANIC","msg":"([^"]*)"', what.replace('\\"', '"'))
+    if m:
+        ev["panic"] = m.group(1)
+    if "inner codec missing" in what:
+        ev["class"] = "inner-codec-missing"
+    elif "panicked" in what or "PANIC" in what:
+        ev["class"] = "panic"
+    elif "return value" in what:
+        ev["class"] = "return-value"
+    elif "object state differs" in what:
+        ev["class"] = "state"
+    else:
+        ev["class"] = "bytes-or-view"
+    return ev
+
+
+def validate_codec_traces(ctx, prefix, role, limit_files=None):
+    """Concatenates the walk traces the replayer wrote (<prefix>.<engine>.<part>) and validates them with Trace_Codec."""
+    files = sorted(f for f in os.listdir(os.path.dirname(prefix)) if f.startswith(os.path.basename(prefix) + "."))
+    if limit_files:
+        files = files[:limit_files]
+    if not files:
+        raise ToolError("no walk traces at " + prefix)
+    allp = prefix + ".all.ndjson"
+    with open(allp, "w") as out:
+        for f in files:
+            out.write(open(os.path.join(os.path.dirname(prefix), f)).read())
+    r = tlc_trace_seq("Trace_Codec", "Trace_Codec_%s.cfg" % role, allp)
+    ctx.states += r["states"]
+    ctx.transitions += r["transitions"]
+    log("[trace] %s: %d events, accepted=%s (%.1fs)" % (os.path.basename(allp), r["events"], r["accepted"], r["wall"]))
+    if r["accepted"]:
+        ctx.traces += sum(1 for x in open(allp) if '"ev":"new"' in x)
+        ctx.extra["trace_events_validated"] = ctx.extra.get("trace_events_validated", 0) + r["events"]
+    else:
+        lines = open(allp).read().splitlines()
+        at = (r["matched"] or 0)
+        # replay file: the history containing the rejected event (from its "new" event on)
+        start = at
+        while start > 0 and '"ev":"new"' not in lines[start]:
+            start -= 1
+        p = save_replay(ctx.prop, "violation-trace-%s-line%d.ndjson" % (role, at + 1), "\n".join(lines[start:at + 1]))
+        try:
+            ev = json.loads(lines[at])
+        except Exception:
+            ev = {}
+        brief = {k: v for k, v in ev.items() if k not in ("out", "ref")}
+        why = r["violated"] or "no action of Codec.tla explains it"
+        ctx.violation("recorded call rejected by Trace_Codec (%s) at line %d of %d: %s" % (why, at + 1, r["events"], json.dumps(brief)),
+                      p, {"source": "trace", "ev": ev.get("ev"), "class": "trace"})
+    for f in files:
+        os.remove(os.path.join(os.path.dirname(prefix), f))
+    return r
+
+
+CODEC_ASSUME = ["the projection reported by hook H2 (configuration, inner rate, counters, received index sets) plus the result bytes is everything later calls depend on",
+                "poison hook H1 overwrites the whole working memory of every object under test with a never-repeating stream; reference objects run with poison off",
+                "palette of configurations and argument classes is explicit (MC_Codec.tla); bytes are compared with a fresh dedicated-rate reference codec (Naive engine) whose output C02 pins to the closed form"]
+
+
+def replay_samples(ctx, gpath, n=2):
+    g = json.load(open(gpath))
+    for e in g["edges"][:: max(1, len(g["edges"]) // n)][:n]:
+        ctx.samples.append({"from": g["nodes"][e[0]], "call": {k: v for k, v in e[2].items() if k != "may_alloc"}, "to": g["nodes"][e[1]]})
+
+
+def check_C06(ctx):
+    ctx.rule = ("every edge of the reachable graph of Codec.tla over the palette (all failing calls from every reachable object state, "
+                "usize extremes, simultaneous violations) replayed on the real code: return value must be in the specification's allowed "
+                "set (Ok iff no documented precondition is violated, else an Err whose variant and fields describe one violated precondition), "
+                "panics are never allowed. distinct = distinct edges covered")
+    ctx.assumptions = CODEC_ASSUME + ["harness built with overflow-checks and debug-assertions on"]
+    if ctx.replay:
+        return replay_script(ctx)
+    variant = "_big" if ctx.thorough else ""
+    engines = ["naive", "default"] if not ctx.thorough else None
+    covered = 0
+    for role in ("enc", "dec"):
+        for inst in ("rate", "rs"):
+            gp, nn, ne = codec_graph(ctx, role, inst, variant)
+            info = replay(ctx, gp, "edges", engines=engines if inst == "rate" else ["default"])
+            covered += info["edges_covered"]
+            replay_samples(ctx, gp, 1)
+    ctx.distinct = covered
+    ctx.exhaustive = True
+    oneshot_cases(ctx)
+
+
+def check_C07(ctx):
+    ctx.rule = ("every edge of the graph replayed THROUGH failing calls: path to the source state, one (thorough: also two) failing calls "
+                "chosen among that state's failing edges, the edge itself, then the shortest continuation to a result whose bytes are compared; "
+                "after each failing call the snapshot must equal the source state. distinct = distinct edges covered through failures")
+    ctx.assumptions = CODEC_ASSUME
+    if ctx.replay:
+        return replay_script(ctx)
+    variant = "_big" if ctx.thorough else ""
+    covered = 0
+    for role in ("enc", "dec"):
+        for inst in ("rate", "rs"):
+            gp, nn, ne = codec_graph(ctx, role, inst, variant)
+            mode = "fail1,fail2" if ctx.thorough else "fail1"
+            info = replay(ctx, gp, mode, engines=(["naive", "default"] if inst == "rate" and not ctx.thorough else None) if inst == "rate" else ["default"])
+            covered += info["edges_covered"]
+            replay_samples(ctx, gp, 1)
+    ctx.distinct = covered
+    ctx.exhaustive = True
+
+
+def check_C05(ctx):
+    ctx.rule = ("seeded random walks over the reachable graph of Codec.tla (rounds, resets across shapes and rates, re-housing across kinds, failing calls "
+                "in between) on every engine with poisoned working memory; every result compared with a fresh dedicated-rate reference codec; the same "
+                "walks recorded and validated event by event by Trace_Codec. distinct = distinct edges covered by walks")
+    ctx.assumptions = CODEC_ASSUME
+    if ctx.replay:
+        return replay_script(ctx)
+    model_must_hold(ctx, "MC_Algo", "MC_Algo_4_enc.cfg", workers=8) if os.path.exists(os.path.join(SPEC, "MC_Algo_4_enc.cfg")) else None
+    covered = 0
+    walks, length = (5000, 200) if ctx.thorough else (360, 40)
+    for role in ("enc", "dec"):
+        gp, nn, ne = codec_graph(ctx, role, "rate", "_big" if ctx.thorough else "")
+        tr = ctx.path("walk_%s.trace" % role)
+        info = replay(ctx, gp, "walks", walks=walks, length=length, trace=tr)
+        covered += info["edges_covered"]
+        validate_codec_traces(ctx, tr, role, limit_files=12)
+        replay_samples(ctx, gp, 1)
+    gp, nn, ne = codec_graph(ctx, "dec", "rs")
+    info = replay(ctx, gp, "walks", walks=walks // 4, length=length, engines=["default"])
+    covered += info["edges_covered"]
+    ctx.distinct = covered
+
+
+def check_C11(ctx):
+    ctx.rule = ("decoder graph of Codec.tla: the state is a pair of index SETS, so every order of adding a set of shards is a distinct path to one node; "
+                "every edge replayed on every engine with the projection and the restored bytes compared at the target (induction over path length: "
+                "all orders and all surplus sets up to the palette bound give the same result); plus permutations and surplus at scale validated by Trace_Code. "
+                "distinct = distinct edges covered")
+    ctx.assumptions = CODEC_ASSUME
+    if ctx.replay:
+        return replay_script(ctx)
+    gp, nn, ne = codec_graph(ctx, "dec", "rate", "_big" if ctx.thorough else "")
+    info = replay(ctx, gp, "edges", acts=["add_original", "add_recovery", "decode", "iter", "query"])
+    ctx.distinct = info["edges_covered"]
+    ctx.exhaustive = True
+    replay_samples(ctx, gp, 2)
+    code_family(ctx, "c11")
+
+
+def check_C12(ctx):
+    ctx.rule = ("result accessors on every live state of the graph: recovery(i)/restored_original(i) over the index palette (0..3, 65535, 65536, MAX-1, MAX), "
+                "iteration to exhaustion and three more polls, drop followed by a new round; walks with many consecutive rounds; "
+                "distinct = distinct query/iter/drop edges covered")
+    ctx.assumptions = CODEC_ASSUME
+    if ctx.replay:
+        return replay_script(ctx)
+    covered = 0
+    for role in ("enc", "dec"):
+        for inst in ("rate", "rs"):
+            gp, nn, ne = codec_graph(ctx, role, inst, "_big" if ctx.thorough else "")
+            info = replay(ctx, gp, "edges,walks", acts=["query", "iter", "drop", "encode", "decode"], walks=200 if not ctx.thorough else 2000,
+                          length=60, engines=None if inst == "rate" else ["default"])
+            covered += info["edges_covered"]
+            replay_samples(ctx, gp, 1)
+    ctx.distinct = covered
+    ctx.exhaustive = True
+    code_family(ctx, "c12")
+
+
+def check_C17(ctx):
+    ctx.rule = ("walks over the graph with 64x larger shards, a counting allocator armed around every call; Trace_Codec carries the history variable "
+                "`held` (largest working-space need since the work space was created) and rejects a call that allocates at least one shard's worth of "
+                "memory, or moves the buffer, although the configuration needs no more than is held. distinct = distinct edges covered")
+    ctx.assumptions = CODEC_ASSUME + ["allocations are observed through a counting global allocator (thread-local, armed around the call only)",
+                                      "tables are forced before the measured region (first decode lazily initialises LOG_WALSH: not working space)"]
+    if ctx.replay:
+        return replay_script(ctx)
+    covered = 0
+    walks, length = (3000, 120) if ctx.thorough else (300, 50)
+    for role in ("enc", "dec"):
+        gp, nn, ne = codec_graph(ctx, role, "rate", "_x64")
+        tr = ctx.path("alloc_%s.trace" % role)
+        info = replay(ctx, gp, "walks", walks=walks, length=length, trace=tr, alloc=True, engines=["naive", "default", "nosimd"], threads=6)
+        covered += info["edges_covered"]
+        validate_codec_traces(ctx, tr, role)
+        replay_samples(ctx, gp, 1)
+    ctx.distinct = covered
+
+
+def replay_script(ctx):
+    """--replay <path>: a saved script (json) is re-executed; a saved trace (ndjson) is re-validated."""
+    p = ctx.replay
+    if p.endswith(".json"):
+        rc, info, out = harness(["replay-script", "--script", p])
+        for v in (info or {}).get("violations", []):
+            ctx.violation(v["what"], p, classify(v["what"]))
+    else:
+        role = "dec" if '"role":"dec"' in open(p).read(2000) else "enc"
+        r = tlc_trace_seq("Trace_Codec", "Trace_Codec_%s.cfg" % role, p)
+        if not r["accepted"]:
+            ctx.violation("trace rejected by Trace_Codec at line %s" % ((r["matched"] or 0) + 1), p, {"source": "trace"})
+
+
+def oneshot_cases(ctx):
+    pass
+
+
+def code_family(ctx, fam):
+    pass
